@@ -17,7 +17,26 @@ var notApplicable = []naEntry{
 }
 
 // pending lists properties whose checks are not built yet (kept current so that MANIFEST.json is always valid).
-var pending = map[string]string{}
+var pending = map[string]string{
+	"C06": "check designed (DESIGN.md section 4) but not built yet; no claim is made for it in this state",
+	"C11": "check designed (DESIGN.md section 4) but not built yet; no claim is made for it in this state",
+	"C12": "check designed (DESIGN.md section 4) but not built yet; no claim is made for it in this state",
+	"C14": "check designed (DESIGN.md section 4) but not built yet; no claim is made for it in this state",
+	"C15": "check designed (DESIGN.md section 4) but not built yet; no claim is made for it in this state",
+	"C16": "check designed (DESIGN.md section 4) but not built yet; no claim is made for it in this state",
+	"C21": "check designed (DESIGN.md section 4) but not built yet; no claim is made for it in this state",
+	"C22": "check designed (DESIGN.md section 4) but not built yet; no claim is made for it in this state",
+	"C23": "check designed (DESIGN.md section 4) but not built yet; no claim is made for it in this state",
+	"C24": "check designed (DESIGN.md section 4) but not built yet; no claim is made for it in this state",
+	"C25": "check designed (DESIGN.md section 4) but not built yet; no claim is made for it in this state",
+	"C26": "check designed (DESIGN.md section 4) but not built yet; no claim is made for it in this state",
+	"C27": "check designed (DESIGN.md section 4) but not built yet; no claim is made for it in this state",
+	"C28": "check designed (DESIGN.md section 4) but not built yet; no claim is made for it in this state",
+	"C29": "check designed (DESIGN.md section 4) but not built yet; no claim is made for it in this state",
+	"C30": "check designed (DESIGN.md section 4) but not built yet; no claim is made for it in this state",
+	"C31": "check designed (DESIGN.md section 4) but not built yet; no claim is made for it in this state",
+	"C34": "check designed (DESIGN.md section 4) but not built yet; no claim is made for it in this state",
+}
 
 func printManifest() {
 	ids := []string{}
